@@ -11,6 +11,14 @@ META = {
                  'FixedStream stand-in for the scratch stream', 'big-integer power-of-ten kernels havoc their output word in the number-scanner query (they never touch the buffer)'],
 }
 MANG = {'char': 'c', 'char16_t': 'Ds', 'char32_t': 'Di'}
+import os as _os, re as _re
+def _powp():
+    # powerOfPositiveTen returns bool since the out-of-range fix; the mangled name (and the stub to use) follows the header actually under test
+    try: txt = open(_os.path.join(_os.environ.get('VERIF_REPO', '/repo'), 'Include', 'Digit.hpp')).read()
+    except Exception: txt = ''
+    if _re.search(r'static\s+bool\s+powerOfPositiveTen', txt): return ('_ZN6Qentem5Digit18powerOfPositiveTenIyEEbRT_j', 'stub_pow_b')
+    return ('_ZN6Qentem5Digit18powerOfPositiveTenIyEEvRT_j', 'stub_pow')
+POWP = _powp()
 def names(ch):
     m = MANG[ch]
     fs = '11FixedStreamI%sLj16EE' % m
@@ -20,7 +28,7 @@ def names(ch):
         'parseObject': '_ZN6Qentem4JSON10JSONParserI%s%sE11parseObjectERS3_PK%sRjj' % (m, fs, m),
         'UnEscape': '_ZN6Qentem9JSONUtils8UnEscapeI%s%sEEjPKT_jRT0_' % (m, fs),
         'stringToNumber': '_ZN6Qentem5Digit14stringToNumberI%sEENS_11QNumberTypeERNS_9QNumber64EPKT_Rjj' % m,
-        'powN': '_ZN6Qentem5Digit18powerOfNegativeTenIyEEvRT_j', 'powP': '_ZN6Qentem5Digit18powerOfPositiveTenIyEEvRT_j',
+        'powN': '_ZN6Qentem5Digit18powerOfNegativeTenIyEEvRT_j', 'powP': POWP[0],
     }
 def queries(tier):
     N = 5 if tier == 'quick' else 8
@@ -43,7 +51,7 @@ def queries(tier):
             Q('h_array', {nm['parseValue']: 'stub_parseValue'})
             Q('h_object', {nm['parseValue']: 'stub_parseValue', nm['UnEscape']: 'stub_unescape'})
             Q('h_unescape', {})
-            Q('h_number', {nm['powN']: 'stub_pow', nm['powP']: 'stub_pow'})
+            Q('h_number', {nm['powN']: 'stub_pow', nm['powP']: POWP[1]})
         if ch == 'char':
             # steering twins (see C07): callee results restricted to real tokens (one digit / the key k") so that a counterexample lifts to a real document
             for L in ((5,) if tier == 'quick' else (4, 5, 6, 7)):
